@@ -475,6 +475,14 @@ class InterpAlgorithmFixed(object):
         ndarray
             Derivative of interpolated values with respect to grid.
         """
+        if isinstance(getattr(self, 'coeffs', None), set):
+            # A vectorized evaluation replaced the dict of per-cell coefficients by the set of
+            # cells held in vec_coeff and left index arrays in last_index. Start the
+            # single-point caches afresh.
+            self.coeffs = {}
+            self.vec_coeff = None
+            self.last_index = [0] * self.dim
+
         idx, _ = self.bracket(x)
         result, d_dx, d_values, d_grid = self.interpolate(x, idx)
 
